@@ -95,7 +95,7 @@ impl Property for C18 {
                 "os_entropy": false,
             });
         }
-        let kind = *rng.pick(&["star", "star_join", "group", "group", "distinct_real", "distinct_real", "join_real", "join_int", "error_row", "group_special_real", "group_special_real", "name_lookup", "many_groups", "history"]);
+        let kind = *rng.pick(&["star", "star_join", "group", "group", "distinct_real", "distinct_real", "join_real", "join_int", "join_int_real", "error_row", "group_special_real", "group_special_real", "name_lookup", "many_groups", "history"]);
         let zero_heavy = kind == "distinct_real" || kind == "join_real" || kind == "group_special_real" || rng.chance(1, 4);
         // REAL values that are not ordinary numbers: NaN, infinities (legal literals for a REAL column)
         let special = kind == "group_special_real";
@@ -127,7 +127,8 @@ impl Property for C18 {
         if kind.contains("join") || kind == "history" {
             for key in keys_txt.iter().take(rng.range(1, 3) as usize) {
                 for _ in 0..rng.range(3, 6) {
-                    joined.push(format!("V {} {} {} {}", key, gen_real(rng, zero_heavy), rng.range(-3, 3), rng.pick(&["p", "q", "r"])));
+                    let real = if kind == "join_int_real" { format!("{}.0", rng.range(-3, 3)) } else { gen_real(rng, zero_heavy) };
+                    joined.push(format!("V {} {} {} {}", key, real, rng.range(-3, 3), rng.pick(&["p", "q", "r"])));
                 }
             }
             rng.shuffle(&mut joined);
@@ -143,6 +144,8 @@ impl Property for C18 {
             "distinct_real" => format!("SELECT COUNT(DISTINCT c2) AS d2, COUNT(DISTINCT c5) AS d5{} FROM w{}", if rng.chance(1, 2) { ", c0" } else { "" }, ""),
             "join_real" => format!("SELECT w.c1, v.x, v.y FROM w {} JOIN v::'{}' ON w.c2 = v.c2", rng.pick(&["INNER", "OUTER"]), JOINED_PATH),
             "join_int" => format!("SELECT w.c0, v.c0, v.y FROM w INNER JOIN v::'{}' ON w.c1 = v.x", JOINED_PATH),
+            // an INT column joined with a REAL column whose values are whole numbers
+            "join_int_real" => format!("SELECT w.c0, w.c1, v.c2, v.y FROM w {} JOIN v::'{}' ON w.c1 = v.c2", rng.pick(&["INNER", "OUTER"]), JOINED_PATH),
             "group_special_real" => format!(
                 "SELECT c2, COUNT(*) AS a0, SUM(c1) AS a1{} FROM w GROUP BY c2{}",
                 if rng.chance(1, 2) { ", MAX(c2) AS a2, MIN(c2) AS a3" } else { "" },
